@@ -38,6 +38,9 @@ func RenameCallable(callable syntax.Callable,
 					newName, pipe, edits)
 			}
 		}
+		// The name of a callable is also the name of the struct type of
+		// its outputs.
+		edits = renameTypeRefs(callable.GetId(), newName, ast, modified, edits)
 		// Fix up top-level call if needed.
 		if ast.Call != nil && ast.Call.DecId == callable.GetId() {
 			id := ast.Call.Id
@@ -56,6 +59,67 @@ func RenameCallable(callable syntax.Callable,
 		return nil
 	}
 	return edits
+}
+
+// Find the files in which parameters or struct members use the given name
+// as their type, and add an edit for each of them.
+func renameTypeRefs(oldName, newName string, ast *syntax.Ast,
+	modified map[decId]struct{}, edits editSet) editSet {
+	addFile := func(file string) {
+		// Use a key which cannot collide with those of declarations.
+		dec := decId{Name: oldName, Kind: "type reference", File: file}
+		if _, ok := modified[dec]; !ok {
+			modified[dec] = struct{}{}
+			edits = append(edits, renameTypeRefEdit{
+				File:    file,
+				OldName: oldName,
+				NewName: newName,
+			})
+		}
+	}
+	for _, c := range ast.Callables.List {
+		usesType := false
+		forEachParamType(c, func(tname *syntax.TypeId) {
+			if tname.Tname == oldName {
+				usesType = true
+			}
+		})
+		if usesType {
+			addFile(syntax.DefiningFile(c))
+		}
+	}
+	for _, st := range ast.StructTypes {
+		for _, member := range st.Members {
+			if member.Tname.Tname == oldName {
+				addFile(syntax.DefiningFile(st))
+				break
+			}
+		}
+	}
+	return edits
+}
+
+func forEachParamType(c syntax.Callable, f func(*syntax.TypeId)) {
+	ins := func(params *syntax.InParams) {
+		if params != nil {
+			for _, p := range params.List {
+				f(&p.Tname)
+			}
+		}
+	}
+	outs := func(params *syntax.OutParams) {
+		if params != nil {
+			for _, p := range params.List {
+				f(&p.Tname)
+			}
+		}
+	}
+	ins(c.GetInParams())
+	outs(c.GetOutParams())
+	if stage, ok := c.(*syntax.Stage); ok {
+		ins(stage.ChunkIns)
+		outs(stage.ChunkOuts)
+	}
 }
 
 func renameCallsToCallable(callable syntax.Callable,
@@ -232,7 +296,38 @@ type (
 		Id       string
 		DecId    string
 	}
+
+	// Renames the uses of a callable's output struct as the type of a
+	// parameter or struct member declared in the given file.
+	renameTypeRefEdit struct {
+		File    string
+		OldName string
+		NewName string
+	}
 )
+
+func (e renameTypeRefEdit) Apply(ast *syntax.Ast) (int, error) {
+	count := 0
+	rename := func(tname *syntax.TypeId) {
+		if tname.Tname == e.OldName {
+			tname.Tname = e.NewName
+			count++
+		}
+	}
+	for _, c := range ast.Callables.List {
+		if syntax.DefiningFile(c) == e.File {
+			forEachParamType(c, rename)
+		}
+	}
+	for _, st := range ast.StructTypes {
+		if syntax.DefiningFile(st) == e.File {
+			for _, member := range st.Members {
+				rename(&member.Tname)
+			}
+		}
+	}
+	return count, nil
+}
 
 func (e renameCallableEdit) Apply(ast *syntax.Ast) (int, error) {
 	for _, callable := range ast.Callables.List {
